@@ -441,3 +441,15 @@ pub fn y_layout_rows(x: u8, y: u8) -> u32 { let shift = y & 1 == 1; let altgr = 
 macro_rules! arms { ($v:expr, $sh:expr; $($k:literal => $lo:literal $up:literal),*) => { match $v { $($k => if $sh { $up } else { $lo },)* _ => '\0' } } }
 pub fn y_macro_arms(x: u8, y: u8) -> u32 { arms!(x & 7, y & 1 == 1; 0 => 'a' 'A', 1 => 'b' 'B', 2 => '1' '!', 5 => ';' ':') as u32 }
 pub fn y_bool_then_chain(x: u8, y: u8) -> u32 { (x > 200).then_some(1u32).or((y > 200).then_some(2)).or_else(|| (x == y).then(|| 3)).map(|v| v * 10).unwrap_or_default() + Some(x).filter(|v| v % 3 == 0).zip(Some(y).filter(|v| v % 5 == 0)).map_or(0, |(a, b)| (a as u32 + b as u32) * 100) }
+
+// ---- eleventh batch: a second trait implemented for the trait OBJECT type competes with impls on the erased types (redteam/B3-m2)
+trait Zshape { fn area(&self, k: u8) -> u32; }
+trait Zhint { fn hint(&self, k: u8) -> u8 { k } }
+struct Zsq; struct Ztri;
+impl Zshape for Zsq { fn area(&self, k: u8) -> u32 { k as u32 * k as u32 } }
+impl Zshape for Ztri { fn area(&self, k: u8) -> u32 { k as u32 * 3 } }
+impl Zhint for Zsq {}
+impl Zhint for Ztri { fn hint(&self, k: u8) -> u8 { k / 2 } }
+impl<'a> Zhint for dyn Zshape + 'a { fn hint(&self, _k: u8) -> u8 { 1 } }
+fn zvia<T: Zshape + Zhint + ?Sized>(s: &T, k: u8) -> u32 { s.area(s.hint(k)) }
+pub fn p_dyn_static_impl(x: u8, y: u8) -> u32 { let d: &dyn Zshape = if y & 1 == 0 { &Zsq } else { &Ztri }; zvia(d, x) + zvia(&Zsq, x) * 7 + zvia(&Ztri, x) * 1000 + d.hint(x) as u32 * 0x100_0000 }
